@@ -327,4 +327,160 @@ theorem check_antiowner_core (db : Db) (now : Int) (h : Str)
           decide
     rw [h3]
 
+/-! ### `getChannel`'s lazy creation of a default record changes no decision -/
+
+theorem getChannel_touch (db : Db) (ch ch' : Str) : (db.touchChannel ch).getChannel ch' = db.getChannel ch' := by
+  unfold Db.touchChannel
+  cases h : db.channels.lookup (chanKey ch) with
+  | some c => simp
+  | none =>
+    simp only
+    unfold Db.getChannel
+    simp only [List.lookup_append]
+    cases h2 : db.channels.lookup (chanKey ch') with
+    | some c => simp
+    | none =>
+      simp only [Option.none_or]
+      by_cases hk : chanKey ch' = chanKey ch
+      · simp [List.lookup, hk]
+      · have : (chanKey ch' == chanKey ch) = false := by simpa using hk
+        simp [List.lookup, this]
+
+
+/-- two databases that agree on users, default sets, flags and on what `getChannel` answers take
+the same capability decisions -/
+theorem checkCapability_congr (db db' : Db) (now : Int) (h cap : Str) (fl : Flags)
+    (hu : db'.users = db.users) (hd : db'.defaults = db.defaults) (hr : db'.registered = db.registered)
+    (hf : db'.defaultFlag = db.defaultFlag) (ht : db'.timeout = db.timeout)
+    (hc : ∀ c, db'.getChannel c = db.getChannel c) :
+    db'.checkCapability now h cap fl = db.checkCapability now h cap fl := by
+  simp only [Db.checkCapability, Db.recognise, Db.lookup, Db.checkUnknown, Db.globalsUnknown, Db.checkKnown,
+    Db.channelStage, Db.globalsKnown, hu, hd, hr, hf, ht, hc]
+
+
+/-- what `Config.getCapability` can answer: `owner`, or `#chan,op` for a channel component of the
+name -/
+theorem cfgLoop_result (opSettable : List Str → Bool) (seen rest : List Str) (cap c : Str)
+    (h : cfgLoop opSettable seen rest cap = .ok c) :
+    c = ownerS ∨ c = cap ∨ ∃ part ∈ rest, isChannel part = true ∧ makeChannelCapability part opS = .ok c := by
+  induction rest generalizing seen cap with
+  | nil =>
+    simp only [cfgLoop, Except.ok.injEq] at h
+    right; left; exact h.symm
+  | cons part rest ih =>
+    unfold cfgLoop at h
+    by_cases ho : opSettable (seen ++ [part]) = true
+    · simp only [ho, Bool.not_true, Bool.false_eq_true, ↓reduceIte] at h
+      by_cases hc : isChannel part = true
+      · simp only [hc, ↓reduceIte] at h
+        cases hm : makeChannelCapability part opS with
+        | error e => simp [hm] at h
+        | ok c1 =>
+          rw [hm] at h
+          simp only at h
+          rcases ih _ _ h with h1 | h1 | ⟨p, hp, hpc, hpm⟩
+          · left; exact h1
+          · right; right; exact ⟨part, List.mem_cons_self, hc, h1 ▸ hm⟩
+          · right; right; exact ⟨p, List.mem_cons_of_mem _ hp, hpc, hpm⟩
+      · simp only [hc, Bool.false_eq_true, ↓reduceIte] at h
+        rcases ih _ _ h with h1 | h1 | ⟨p, hp, hpc, hpm⟩
+        · left; exact h1
+        · right; left; exact h1
+        · right; right; exact ⟨p, List.mem_cons_of_mem _ hp, hpc, hpm⟩
+    · simp only [ho, Bool.not_false, ↓reduceIte, Except.ok.injEq] at h
+      left; exact h.symm
+
+/-- a capability other than `owner` is only answered when every group on the path is op-settable -/
+theorem cfgLoop_nonowner_settable (opSettable : List Str → Bool) (seen rest : List Str) (cap c : Str)
+    (h : cfgLoop opSettable seen rest cap = .ok c) (hc : c ≠ ownerS) :
+    ∀ k, 0 < k → k ≤ rest.length → opSettable (seen ++ rest.take k) = true := by
+  induction rest generalizing seen cap with
+  | nil => intro k hk hk'; simp at hk'; omega
+  | cons part rest ih =>
+    unfold cfgLoop at h
+    by_cases ho : opSettable (seen ++ [part]) = true
+    · simp only [ho, Bool.not_true, Bool.false_eq_true, ↓reduceIte] at h
+      have hrest : ∃ cap', cfgLoop opSettable (seen ++ [part]) rest cap' = .ok c := by
+        by_cases hch : isChannel part = true
+        · simp only [hch, ↓reduceIte] at h
+          cases hm : makeChannelCapability part opS with
+          | error e => simp [hm] at h
+          | ok c1 => rw [hm] at h; exact ⟨c1, h⟩
+        · simp only [hch, Bool.false_eq_true, ↓reduceIte] at h
+          exact ⟨cap, h⟩
+      obtain ⟨cap', hr⟩ := hrest
+      intro k hk hk'
+      cases k with
+      | zero => omega
+      | succ k =>
+        cases k with
+        | zero => simpa using ho
+        | succ k =>
+          have := ih _ _ hr (k + 1) (by omega) (by simp at hk'; omega)
+          simpa [List.append_assoc] using this
+    · simp only [ho, Bool.not_false, ↓reduceIte, Except.ok.injEq] at h
+      exact absurd h.symm hc
+
+
+/-- `owner` and `-owner` are never both members -/
+def NoBothOwner (s : CapSet) : Prop := ¬ (ownerS ∈ s ∧ antiOwnerS ∈ s)
+
+theorem mem_insert_iff (s : CapSet) (c x : Str) : x ∈ CapSet.insert s c ↔ x ∈ s ∨ x = c := by
+  unfold CapSet.insert
+  split
+  · constructor
+    · intro h; exact Or.inl h
+    · rintro (h | h)
+      · exact h
+      · subst h; assumption
+  · simp
+
+theorem mem_erase_iff (s : CapSet) (c x : Str) : x ∈ CapSet.erase s c ↔ x ∈ s ∧ x ≠ c := by
+  simp [CapSet.erase]
+
+theorem add_noBoth (s s' : CapSet) (cap : Str) (hs : NoBothOwner s) (h : CapSet.add s cap = .ok s') :
+    NoBothOwner s' := by
+  unfold CapSet.add at h
+  cases hinv : invertCapability (toLower cap) with
+  | error e => simp [hinv] at h
+  | ok inv =>
+    simp only [hinv, Except.ok.injEq] at h
+    subst h
+    intro ⟨ho, ha⟩
+    rw [mem_insert_iff, mem_erase_iff] at ho ha
+    by_cases hc1 : toLower cap = ownerS
+    · have : inv = antiOwnerS := by
+        rw [hc1] at hinv
+        have h2 : invertCapability ownerS = .ok antiOwnerS := by decide
+        rw [h2] at hinv; exact (Except.ok.inj hinv).symm
+      rcases ha with ⟨_, hne⟩ | heq
+      · exact hne this.symm
+      · rw [hc1] at heq; exact absurd heq (by decide)
+    · by_cases hc2 : toLower cap = antiOwnerS
+      · have : inv = ownerS := by
+          rw [hc2] at hinv
+          have h2 : invertCapability antiOwnerS = .ok ownerS := by decide
+          rw [h2] at hinv; exact (Except.ok.inj hinv).symm
+        rcases ho with ⟨_, hne⟩ | heq
+        · exact hne this.symm
+        · rw [hc2] at heq; exact absurd heq (by decide)
+      · rcases ho with ⟨ho', _⟩ | heq
+        · rcases ha with ⟨ha', _⟩ | heq2
+          · exact hs ⟨ho', ha'⟩
+          · exact hc2 heq2.symm
+        · exact hc1 heq.symm
+
+theorem foldlM_add_noBoth (v : List Str) (s s' : CapSet) (hs : NoBothOwner s)
+    (h : v.foldlM CapSet.add s = .ok s') : NoBothOwner s' := by
+  induction v generalizing s with
+  | nil => simp [List.foldlM] at h; cases h; exact hs
+  | cons c cs ih =>
+    simp only [List.foldlM] at h
+    cases hc : CapSet.add s c with
+    | error e => simp [hc, bind, Except.bind] at h
+    | ok s1 =>
+      simp only [hc, bind, Except.bind] at h
+      exact ih s1 (add_noBoth s s1 c hs hc) h
+
+
 end C01
